@@ -84,7 +84,7 @@ def run_history(cfg, scratch_dir=None):
     s = None
     import contextlib
     geometry = cellworld.install(world) if world else contextlib.nullcontext()
-    with warnings.catch_warnings(), geometry, common.cpu_limit(1500):
+    with warnings.catch_warnings(), geometry, common.cpu_limit(400):
         warnings.simplefilter('ignore')
         try:
             s = make_sampler(c, reg, path, resume=False)
